@@ -1,9 +1,10 @@
 SPECIFICATION Spec
 CONSTANTS
+  Flavour = "ip"
   MaxV = 4
   InitVers = {1, 2}
   InitCaches = {0, 11, 1, 12, 22}
-  MaxGen = 3
+  MaxGen = 2
   MaxTasks = 4
   Listeners = {1}
   OneShot = {}
